@@ -358,6 +358,32 @@ def run(ctx: Context, rep) -> None:
 
     check_dump(ctx, rep, "C04.dump")
     check_fresh_records(ctx, rep, "C04.fresh")
+    # the merge keeps every list exactly once (no directory merged twice,
+    # none dropped): same rule as C08.dedup
+    from sa.rules.c08 import check_dedup
+    check_dedup(ctx, rep, "C04.merge")
+    # a shard file exists only once a shard with examples is written: writer
+    # constructors create no file (an eagerly opened, never written shard
+    # would be left unlisted on disk)
+    rep.rule(
+        "C04.lazy-file",
+        "no shard writer constructor (nor Shard.__init__) has a file-creating "
+        "effect; files appear in _write / close only")
+    base = ctx.repo.cls("sedpack.io.shard.shard_writer_base:ShardWriterBase")
+    n_ctor = 0
+    for ci in [base] + list(ctx.repo.subclasses(base)) + [
+            ctx.repo.cls("sedpack.io.shard.shard:Shard")]:
+        init = ci.methods.get("__init__")
+        if init is None:
+            continue
+        n_ctor += 1
+        eff = [c for c in init.calls() if "FS_CREATE" in ctx.effects(init, c)]
+        rep.ob("C04.lazy-file", not eff, loc=init.loc(eff[0]) if eff else
+               init.loc(), where=init.qualname,
+               construct=short(eff[0], 60) if eff else "no file effect",
+               message="constructing a writer must not create its file")
+    rep.floor("C04.lazy-file", n_ctor, 4, "constructors")
+
 
 
 def check_fresh_records(ctx: Context, rep, rule: str) -> None:
@@ -399,6 +425,24 @@ def check_fresh_records(ctx: Context, rep, rule: str) -> None:
                construct=f"{short(n.ast)} carries {sorted(tags)}",
                message="re-attached child records must be fresh merge "
                "results")
+    # ... and what the children list is (re)bound to
+    for n in cfg.nodes:
+        if n.kind != "stmt" or not isinstance(n.ast, (ast.Assign,
+                                                      ast.AnnAssign)):
+            continue
+        tgts = n.ast.targets if isinstance(n.ast, ast.Assign) else [n.ast.target]
+        if not any(isinstance(t, ast.Attribute) and
+                   t.attr == "children_shard_lists" for t in tgts):
+            continue
+        v = n.ast.value
+        if isinstance(v, ast.List) and not v.elts:
+            continue
+        tags = tf.tags_at(n, v) if v is not None else frozenset()
+        rep.ob(rule, "fresh" in tags and "stale" not in tags and
+               "update" not in tags, loc=mg.loc(n.ast), where=mg.qualname,
+               construct=f"{short(n.ast)} carries {sorted(tags)}",
+               message="the children list may only be reset to [] or to "
+               "fresh merge results")
     ret = [n for n in cfg.nodes if n.kind == "stmt" and isinstance(
         n.ast, ast.Return)]
     for r in ret:
